@@ -44,8 +44,23 @@ class CallGraph:
                 self._by_name.setdefault(f.name, []).append(f)
         self._fq = {f.fq: f for f in sm.functions}
         self._props = self._xml_properties()
+        # receiver-family contexts for the generic Tree methods: one clone per Tree family, so that `self.m()` inside a Tree
+        # method dispatches within the family of the object the method was called on
+        self.clones: Dict[Tuple[FuncInfo, str], FuncInfo] = {}
+        self.families = [c.name for c in sm.subclasses('Tree') if c.name != 'Tree' and [b.name for b in c.bases] and 'Tree' in [b.name for b in c.bases]
+                         and c.module.name.startswith('musicxml')]
+        tree = sm.get_class('Tree')
+        if tree is not None:
+            for m in list(tree.methods.values()) + list(tree.setters.values()):
+                for fam in self.families:
+                    cl = FuncInfo(m.module, m.node, cls=m.cls, parent=None)
+                    cl.qualname = f"{m.qualname}@{fam}"
+                    cl.ctx_family = fam
+                    self.clones[(m, fam)] = cl
         for f in sm.functions:
             self._scan(f)
+        for cl in self.clones.values():
+            self._scan(cl)
         # module level code (import time) as pseudo functions is not needed by any rule
 
     def _xml_properties(self) -> Set[str]:
@@ -56,7 +71,42 @@ class CallGraph:
         return out
 
     # ------------------------------------------------------------------------------------------
+    def all_functions(self) -> List[FuncInfo]:
+        return list(self.sm.functions) + list(self.clones.values())
+
+    def _family_of(self, cname: Optional[str]) -> Optional[str]:
+        if cname is None:
+            return None
+        fam = self.ty.tree_family(cname)
+        return fam if fam in self.families else None
+
+    def _contextualise(self, caller, callee, recv):
+        """Map a callee to its receiver-family clone (Tree methods), or drop it (an override of another family reached from a
+        family-bound Tree clone).  -> FuncInfo or None"""
+        ctx = getattr(caller, 'ctx_family', None)
+        if callee.cls is None or callee.parent is not None:
+            return callee
+        cname = callee.cls.name
+        if cname == 'Tree' and not getattr(callee, 'ctx_family', None):
+            fam = None
+            rfam = self._family_of(recv[1]) if recv is not None and recv[0] in ('inst', 'cls') else None
+            if ctx is not None and (recv is None or rfam is None or recv[1] == 'Tree'):
+                fam = ctx
+            elif rfam is not None:
+                fam = rfam
+            if fam is not None and (callee, fam) in self.clones:
+                return self.clones[(callee, fam)]
+            return callee
+        if ctx is not None and callee.cls.is_subclass_of('Tree') and cname != 'Tree':
+            fam = self._family_of(cname)
+            if fam is not None and fam != ctx and (recv is None or recv[1] == 'Tree' or self._family_of(recv[1]) != fam):
+                return None
+        return callee
+
     def _add(self, caller, node, callee, kind, resolved=True, recv=None):
+        if callee is None:
+            return
+        callee = self._contextualise(caller, callee, recv)
         if callee is None:
             return
         e = Edge(caller, node, callee, kind, resolved, recv)
@@ -158,11 +208,23 @@ class CallGraph:
                             self._add(fi, n, k.setters[prop], 'super-fset')
                             found = True
                             break
+        recv_atoms = [r for r in self.ty.type_of(f.value) if r[0] in ('inst', 'cls')] if isinstance(f, ast.Attribute) else []
         for a in ftypes:
             if a[0] == 'func':
                 tgt = self._fq.get(a[1])
                 if tgt is not None:
-                    self._add(fi, n, tgt, 'call')
+                    # the receiver atoms this method can have been looked up on (for the receiver-family context)
+                    recvs = []
+                    if tgt.cls is not None:
+                        for r in recv_atoms:
+                            rc = self.sm.get_class(r[1])
+                            if rc is not None and (rc.is_subclass_of(tgt.cls.name) or tgt.cls.is_subclass_of(r[1])):
+                                recvs.append(r)
+                    if recvs:
+                        for r in recvs:
+                            self._add(fi, n, tgt, 'call', True, r)
+                    else:
+                        self._add(fi, n, tgt, 'call')
                     found = True
                 elif a[1].startswith('<lambda'):
                     found = True
